@@ -358,8 +358,12 @@ def gen_valid_case(rng, cid):
         # the loader (which merely has to READ a UTF-8 JSON file) is exercised there
         path_kind, hostenv, cli_names, lists = "plain", {}, [], []
         dims[:] = [d for d in dims if not d.startswith(("config-path:", "hostenv:", "runner-names:"))]
+    # a configuration that REPLACES an earlier one at the same path in the same process (an editor saving the file, a host
+    # reloading its configuration): the entry points must launch what the file says NOW
+    rewritten = loc == "utf-8" and rng.random() < 0.25
+    dims.append("file-history:" + ("rewritten-in-place-after-a-load" if rewritten else "fresh"))
     return {"kind": "valid", "id": cid, "config": cfg, "ser": ser, "path_kind": path_kind, "hostenv": hostenv, "backend": backend,
-            "locale": loc,
+            "locale": loc, "rewritten": rewritten,
             "loader_names": loader_names, "cli_names": cli_names, "runner_lists": lists, "dims": dims}
 
 
@@ -468,6 +472,14 @@ def materialise(case, rundir, witness):
         with open(path, "w", encoding="utf-8") as f:
             f.write(text)
         src = ("json", cfg)
+        if case.get("rewritten"):
+            # the predecessor: same servers and commands, other arguments and environment
+            old = copy.deepcopy(cfg)
+            for sv in old["mcpServers"].values():
+                if isinstance(sv, dict):
+                    sv["args"] = ["--stale-generation"]
+                    sv["env"] = {"C20_STALE": "1"}
+            pre = {"text": json.dumps(old), "final": text, "name": sorted(old["mcpServers"])[0]}
     steps = []
     configured = set(src[1]["mcpServers"]) if case["kind"] == "valid" else set()
     only = case.get("only")          # replay: a single step
@@ -481,6 +493,8 @@ def materialise(case, rundir, witness):
         steps = [only]
     job = {"id": case["id"], "path": path, "dirs": dirs, "hostenv": case.get("hostenv", {}), "steps": steps,
            "backend": case.get("backend", "pydantic"), "locale": case.get("locale", "utf-8")}
+    if case["kind"] == "valid" and case.get("rewritten"):
+        job["pre"] = pre
     return job, src
 
 
@@ -897,7 +911,7 @@ REQUIRED_BUCKETS = ["backend:pydantic", "backend:fallback", "process-locale:utf-
                     "witness:answers", "witness:refuses", "hostenv:patched", "source:missing-file", "source:invalid-json",
                     "source:valid-zero-servers", "entry-point:loader", "entry-point:cli", "entry-point:runner",
                     "entry-point:loader+transport", "loader-outcome:raise-FNF", "loader-outcome:raise-JSON", "loader-outcome:raise-VAL",
-                    "loader-outcome:ok"]
+                    "loader-outcome:ok", "file-history:rewritten-in-place-after-a-load", "file-history:fresh"]
 
 
 def explore(ctx, drv):
